@@ -650,6 +650,29 @@ def gen_C05(rng, tier):
     return L
 
 
+def project_C05(case, line):
+    """freeze: the property pins `get()` at updates whose condition is false (the input's output at that update), at updates whose
+    condition is ABSENT (absent), and while the condition stays true after a false one. What it returns at an update whose condition is an
+    ERROR — and while the condition then stays true — is not pinned (the crate returns the condition's error and keeps it; returning the
+    last unfrozen value would be just as conformant): those tokens are masked."""
+    if not case.startswith("ss freeze "):
+        return line
+    evs = case.split(" ")[3:]
+    toks = line.split(" ")
+    if len(toks) != len(evs):
+        return line
+    out = []
+    unspecified = False
+    for ev, tok in zip(evs, toks):
+        cond = ev.split(";")[0]
+        if cond.startswith("E"):
+            unspecified = True
+        elif cond == "N" or cond.endswith("@false"):
+            unspecified = False
+        out.append("unspecified" if unspecified and not tok.startswith("PANIC") else tok)
+    return " ".join(out)
+
+
 def get_part(tok):
     return tok.split("/", 1)[1] if "/" in tok else tok
 
@@ -1935,6 +1958,46 @@ def cross_C19(lines, outs, models=None):
 GENERATORS.update({"C19": gen_C19})
 
 
+# =========================================================================== observables pinned only up to a tolerance
+from fractions import Fraction as _Fr
+
+
+def _exact_f32(h):
+    """exact rational value of a finite binary32 bit pattern"""
+    b = int(h, 16)
+    sign = -1 if b >> 31 else 1
+    ex, man = (b >> 23) & 0xff, b & 0x7fffff
+    if ex == 255:
+        return None
+    if ex == 0:
+        return sign * _Fr(man, 2 ** 149)
+    return sign * _Fr((1 << 23) + man) * (_Fr(2) ** (ex - 150))
+
+
+def precompare_conversions(case, impl, model):
+    """C18 (and the copies of these lines in C01/C19): `q tot` — Quantity -> Time — is pinned only "to within one f32 rounding and 1 ns of
+    truncation"; `q tod` — Quantity -> DimensionlessInteger — is pinned only in WHETHER it succeeds.  An implementation that differs from
+    the model on such a line is judged by the property's own predicate: inside it -> `soft` (the correspondence is broken, no failing input);
+    outside -> `hard`.  Returns None for every other line (normal comparison)."""
+    t = case.split(" ")
+    if len(t) != 3 or t[0] != "q" or impl == model:
+        return None
+    if t[1] == "tod":
+        if impl.startswith("D:") and model.startswith("D:"):
+            return ("drift", "value of DimensionlessInteger::try_from is not pinned by any property")
+        return None
+    if t[1] == "tot" and impl.startswith("T:") and model.startswith("T:") and t[2].startswith("Q:"):
+        x = _exact_f32(t[2].split(":")[1])
+        if x is None:
+            return None
+        y = x * 10 ** 9
+        n = int(impl[2:])
+        if abs(y) < 2 ** 63 - 2 ** 40 and abs(n - y) <= abs(y) / 2 ** 24 + 1:
+            return ("soft", "differs from the model but is within one f32 rounding + 1 ns of value*1e9")
+        return None
+    return None
+
+
 # =========================================================================== property-conformant alternatives
 def accept_latest(case, impl, model):
     """`st latest` / `d latest`: the property only says the result is one of the candidates and no candidate is strictly newer;
@@ -2002,6 +2065,22 @@ def project_C06(case, line):
             hist = t + "@" + c[:1]
         out.append("/".join([p[0], p[1], pres(p[2]), pres(p[3]), pres(p[4]), hist]))
     return " ".join(out)
+
+
+def precompare_C07(case, impl, model):
+    """the stored phase durations t1,t2,t3 are f32 seconds converted to ns: pinned only within the rounding tolerance the property
+    states.  When implementation and model differ ONLY by a few f32 ulps of seconds in those (and consequently in what the accessors
+    return), the verdict is `soft`; the numeric oracle on the implementation's own outputs looks for a failing input."""
+    if not case.startswith("mp ") or impl == model or impl.startswith("PANIC") or model.startswith("PANIC"):
+        return None
+    a, b = impl.split(" "), model.split(" ")
+    if len(a) != len(b) or not all(x.startswith("T:") for x in a[:3] + b[:3]):
+        return None
+    ta, tb = [int(x[2:]) for x in a[:3]], [int(x[2:]) for x in b[:3]]
+    if ta == tb:
+        return None
+    ok = all(abs(x - y) <= max(abs(x), abs(y)) / 2 ** 21 + 4 for x, y in zip(ta, tb))
+    return ("soft", "phase durations differ from the model within a few f32 ulps of seconds") if ok else None
 
 
 def project_C07(case, line):
